@@ -34,6 +34,11 @@ func TestVerifC02Flt(t *testing.T) {
 		rules = rules[:budget]
 	}
 	vecs := append(rules, c02SafetyVectors(rng, vhThorough())...)
+	// several concretisations per abstract vector
+	reps := vhEnvInt("VERIF_REPS", 1)
+	for r, n := 1, len(vecs); r < reps; r++ {
+		vecs = append(vecs, vecs[:n]...)
+	}
 	var cases []*c02Case
 	for i, v := range vecs {
 		c := &c02Case{V: v, Mode: c02Modes[i%len(c02Modes)], Ups: []string{"cname", "addr"}[i%2]}
